@@ -249,7 +249,13 @@ class FilesystemOnionService(object):
             # released?!
             uploaded[0] = _await_descriptor_upload(config.tor_protocol, fhs, progress, await_all_uploads)
 
-        yield config.save()
+        try:
+            yield config.save()
+        except Exception:
+            # no service, so no uploads to wait for: stop listening
+            uploaded[0].addErrback(lambda f: f.trap(defer.CancelledError))
+            uploaded[0].cancel()
+            raise
         yield uploaded[0]
         return fhs
 
@@ -493,7 +499,12 @@ def _await_descriptor_upload(tor_protocol, onion, progress, await_all_uploads):
     # caller can do "d = _await_descriptor_upload()", then add the
     # service.
     yield tor_protocol.add_event_listener('HS_DESC', hs_desc)
-    yield uploaded
+    try:
+        yield uploaded
+    except Exception:
+        # failure (or cancellation): stop listening, too
+        yield tor_protocol.remove_event_listener('HS_DESC', hs_desc)
+        raise
     yield tor_protocol.remove_event_listener('HS_DESC', hs_desc)
     # ensure we show "100%" at the end
     if progress:
@@ -601,7 +612,13 @@ def _add_ephemeral_service(config, onion, progress, version, auth=None, await_al
                 cmd += ' ClientAuth={}:{}'.format(client_name, keyblob)
                 onion._add_client(client_name, keyblob)
 
-    raw_res = yield config.tor_protocol.queue_command(cmd)
+    try:
+        raw_res = yield config.tor_protocol.queue_command(cmd)
+    except Exception:
+        # no service, so no uploads to wait for: stop listening
+        uploaded_d.addErrback(lambda f: f.trap(defer.CancelledError))
+        uploaded_d.cancel()
+        raise
     res = find_keywords(raw_res.split('\n'))
     try:
         onion._hostname = res['ServiceID'] + '.onion'
